@@ -8,6 +8,11 @@ cp /repo/go.sum harness/go.sum 2>/dev/null || true
 (cd harness && for d in cmd/*/; do n=$(basename $d); go build -tags verif -o ../build/znh_$n ./cmd/$n; done)
 if [ -x tools/gen.sh ]; then tools/gen.sh; fi
 python3 -c "import sys; sys.path.insert(0,'tools'); from vlib import core; core.coq_makefile()"
+# full .vo build of the cone of every claimed property (never -vos)
+TARGETS=$(python3 -c "
+import sys,json; sys.path.insert(0,'tools')
+m=json.load(open('MANIFEST.json'))
+print(' '.join('props/%s.vo'%c['property_id'] for c in m['checks']))")
 cd coq
-timeout 3000 make -j16 > ../build/setup_make.log 2>&1 || { tail -40 ../build/setup_make.log; exit 1; }
+timeout 3000 make -j16 $TARGETS > ../build/setup_make.log 2>&1 || { tail -40 ../build/setup_make.log; exit 1; }
 echo "setup ok"
